@@ -26,7 +26,7 @@ MANIFEST = {
     "technique": "bounded-exhaustive enumeration of maps x frames x queries against a full-scan reference model",
 }
 MANIFEST["text"] += " " + (
-    'Added after the seeding waves: every SQLite map is built twice (bulk inserts; add_node/add_edge single inserts); a far-south latitude-longitude frame at 400 m per unit; radii derived from attained node distances (the element is inside by 1e-4 of the radius).')
+    'Added after the seeding waves: every SQLite map is built twice (bulk inserts; add_node/add_edge single inserts); a far-south latitude-longitude frame at 400 m per unit; radii derived from attained node distances (the element is inside by 1e-4 of the radius); the single-insert build offers every node with ignore_doubles=True and every label a second time with other coordinates (a tile-wise import; the content must stay that of the first offer).')
 BUDGET = {"quick": 300, "thorough": 1500}
 RULE = ("cases = (frame, map); each enumerates both backends x all query locations x radii x {pair, triple} x max_elmt. "
         "states = distinct (backend, map, frame, query, radius) configurations, transitions = API calls compared with the scan, "
